@@ -320,6 +320,33 @@ def work(unit):
                                        "sliced": (ix,), "zeroed": True,
                                        "scales": scales, "seed": seed},
                                       bad[:3])
+                # several zero slices in a row: a second index sliced
+                # together with the zeroed one, in either removal order
+                for jx in inds[1:3]:
+                    for order in ((ix, jx), (jx, ix)):
+                        tree = nets.build_tree(inputs, output, sd, nested)
+                        for kx in order:
+                            tree.remove_ind_(kx)
+                        res.evals += 1
+                        res.key((inputs, output, nested, "zero-slices", order))
+                        arrays = [b.astype("float64") for b in zb]
+                        bad = []
+                        try:
+                            m, e = tree.contract(arrays, strip_exponent=True,
+                                                 check_zero=True)
+                            check_pair(m, e, wz, 0,
+                                       "zero-slices-in-a-row[check_zero=True]",
+                                       bad)
+                        except Exception as ex:
+                            bad.append(("zero-slices-in-a-row:raises",
+                                        repr(ex)))
+                        if bad:
+                            res.violation(
+                                "strip-exponent:zero-slices-in-a-row",
+                                {"inputs": inputs, "output": output,
+                                 "sizes": sd, "tree": nested,
+                                 "sliced": order, "zeroed": True,
+                                 "seed": seed}, bad[:3])
     # ---- signed and sparse data: whole-tensor signs x structural zeros, so
     # that intermediates are non-positive and/or contain exact zeros without
     # being identically zero (results that are identically zero are outside
